@@ -1,13 +1,7 @@
 
-val negb : bool -> bool
-
 type nat =
 | O
 | S of nat
-
-val fst : ('a1 * 'a2) -> 'a1
-
-val snd : ('a1 * 'a2) -> 'a2
 
 val length : 'a1 list -> nat
 
@@ -22,24 +16,15 @@ val compOpp : comparison -> comparison
 
 val add : nat -> nat -> nat
 
-module Nat :
- sig
-  val eqb : nat -> nat -> bool
- end
-
 val nth : nat -> 'a1 list -> 'a1 -> 'a1
 
 val rev : 'a1 list -> 'a1 list
 
 val map : ('a1 -> 'a2) -> 'a1 list -> 'a2 list
 
-val forallb : ('a1 -> bool) -> 'a1 list -> bool
+val flat_map : ('a1 -> 'a2 list) -> 'a1 list -> 'a2 list
 
-val combine : 'a1 list -> 'a2 list -> ('a1 * 'a2) list
-
-val firstn : nat -> 'a1 list -> 'a1 list
-
-val skipn : nat -> 'a1 list -> 'a1 list
+val filter : ('a1 -> bool) -> 'a1 list -> 'a1 list
 
 val repeat : 'a1 -> nat -> 'a1 list
 
@@ -110,8 +95,6 @@ module N :
 
   val coq_lor : n -> n -> n
 
-  val coq_land : n -> n -> n
-
   val ldiff : n -> n -> n
 
   val to_nat : n -> nat
@@ -137,6 +120,10 @@ module Z :
 
   val mul : z -> z -> z
 
+  val pow_pos : z -> positive -> z
+
+  val pow : z -> z -> z
+
   val compare : z -> z -> comparison
 
   val leb : z -> z -> bool
@@ -161,20 +148,20 @@ module Z :
 
   val div_eucl : z -> z -> z * z
 
+  val div : z -> z -> z
+
   val modulo : z -> z -> z
 
   val div2 : z -> z
 
   val shiftl : z -> z -> z
 
-  val coq_lor : z -> z -> z
+  val shiftr : z -> z -> z
 
   val coq_land : z -> z -> z
  end
 
 val wrap32 : z -> z
-
-val u64 : z -> z
 
 val split_at : z -> z list -> z list -> z list list * z list
 
@@ -182,170 +169,150 @@ val strip_cr : z list -> z list
 
 val records : z -> bool -> z list -> z list list
 
-val fold_default_width : z
+val unrecords : z -> z list list -> z list
 
-val fold_default_keep : bool
+val tABLE : z list
 
-val fold_default_delims : z list
+val iNV_TABLE : z list
 
-val fold_s_sets_keep : bool
+val enc_val0 : z
 
-val fold_feeder_strip_cr : bool
+val enc_valb0 : z
 
-val fold_collector_strip_cr : bool
+val enc_shift : z
 
-val fu8_trail_bound : z
+val enc_valb_add : z
 
-val fu8_valid_lt : z
+val enc_loop_bound : z
 
-val fu8_valid_ge : z
+val enc_mask : z
 
-val fu8_valid_le : z
+val enc_valb_sub : z
 
-val fu8_b1_lt : z
+val enc_tail_bound : z
 
-val fu8_b1_len : z
+val enc_tail_shl : z
 
-val fu8_b2_len : z
+val enc_tail_add : z
 
-val fu8_b2_leadmask : z
+val enc_tail_mask : z
 
-val fu8_b2_leadval : z
+val enc_pad_mod : z
 
-val fu8_b2_m0 : z
+val pad_char : z
 
-val fu8_b2_s0 : z
+val dec_val0 : z
 
-val fu8_b2_m1 : z
+val dec_valb0 : z
 
-val fu8_b2_min : z
+val dec_pad_char : z
 
-val fu8_b2_mblen : z
+val dec_reject : z
 
-val fu8_b3_len : z
+val dec_shift : z
 
-val fu8_b3_leadmask : z
+val dec_valb_add : z
 
-val fu8_b3_leadval : z
+val dec_out_bound : z
 
-val fu8_b3_m0 : z
+val dec_mask : z
 
-val fu8_b3_s0 : z
+val dec_valb_sub : z
 
-val fu8_b3_m1 : z
+val tbl : z -> z
 
-val fu8_b3_s1 : z
+val inv : z -> z
 
-val fu8_b3_m2 : z
+val sel : z -> z -> z -> z
 
-val fu8_b3_min : z
+val enc_drain : nat -> z -> z -> (z list * z) option
 
-val fu8_b3_mblen : z
+val drain_fuel : nat
 
-val fu8_b4_len : z
+val enc_bytes : z list -> z -> z -> ((z list * z) * z) option
 
-val fu8_b4_leadmask : z
+val enc_pad : nat -> z list
 
-val fu8_b4_leadval : z
+val base64_encode : z list -> z list option
 
-val fu8_b4_m0 : z
+type dres =
+| DOk of z list
+| DBadChar of z
+| DLengthError
 
-val fu8_b4_s0 : z
+val count_padding_rev : z list -> nat
 
-val fu8_b4_m1 : z
+val count_padding : z list -> nat
 
-val fu8_b4_s1 : z
+val dec_loop : z list -> z -> z -> dres
 
-val fu8_b4_m2 : z
+val base64_decode : z list -> dres
 
-val fu8_b4_s2 : z
+val b64f_feeder_strip_cr : bool
 
-val fu8_b4_m3 : z
+val b64f_collector_strip_cr : bool
 
-val fu8_b4_min : z
+val b64f_back_guarded : bool
 
-val fu8_b4_mblen : z
+val b64f_nl_test : z
 
-val schar : z -> z
+val b64f_nl_push : z
 
-val is_trail : z -> bool
+val b64f_nl_count : z
 
-val is_valid_cp : z -> bool
+val b64f_nl_back : z
 
-val byte_at : z list -> nat -> z
+val b64f_nl_out : z
 
-val decode_utf8 : z list -> (z * z) option
+type docmeta = { line_cnt : nat; has_nl : bool }
 
-val dec_at : z list -> z -> (z * z) option
+val last_byte : z list -> z option
 
-val substr : z list -> z -> z -> z list
+val count_byte : z -> z list -> nat
 
-type wopts = { w_width : z; w_keep : bool; w_delims : z list }
+type fres =
+| FOk of z list * docmeta
+| FUB
 
-val find_delimiter : z list -> z -> nat option
+val feed_doc : z list -> fres
 
-val is_delim : z list -> z -> bool
+val rebuild : nat -> bool -> z list list -> (z list * z list list) option
 
-val set_nth : nat -> z -> z list -> z list
+type cres =
+| COk of z list list
+| CChildShort
+| CSurplus
 
-type wres =
-| WOk of z list list * z list list
-| WBadUtf8
-| WFuel
+val collect : docmeta list -> z list list -> cres
 
-type wstate = { s_pos : z; s_last_cut : z; s_pds : z list; s_pfd : z;
-                s_lines : z list list; s_dels : z list list }
+type bres =
+| BOk of z list
+| BBadInput
+| BUB
+| BChildShort
+| BSurplus
+| BFuel
 
-val lookback : z list -> z -> z -> z
+val decode_all : z list list -> z list list option
 
-type peekres =
-| PeekOk of z
-| PeekBad
-| PeekFuel
+val feed_all : z list list -> (z list * docmeta list) option
 
-val peek : nat -> z list -> wopts -> z -> z -> peekres
+val encode_all : z list list -> z list option
 
-type stepres =
-| StScan of wstate
-| StCut of wstate
-| StDone of wstate
-| StBad
-| StFuel
+val child_output : (z list -> z list) -> z list -> z list
 
-val step : z list -> wopts -> wstate -> stepres
+val b64filter_docs : (z list -> z list) -> bool -> z list list -> bres
 
-val wrap_loop : nat -> z list -> wopts -> nat -> wstate -> stepres
+val b64filter : (z list -> z list) -> bool -> bool -> z list -> bres
 
-val init_state : wopts -> wstate
+val b64filter_tool : (z list -> z list) -> z list -> bres
 
-val wrap_lines : z list -> wopts -> wres
+val b64filter_child_stdin : z list -> z list option
 
-val c_str : z list -> z list
+val doc_lines : z list -> z list list
 
-val join : z list list -> z list list -> (z list * z list list) option
+val ends_nl : z list -> bool
 
-val interleave : z list list -> z list list -> z list
+val join_lines : z list list -> bool -> z list
 
-type tres =
-| TOk of z list
-| TBadUtf8
-| TFuel
-| TChildShort
-
-val cr_strip : bool -> z list -> z list
-
-val tool_lines : wopts -> (z list -> z list) -> bool -> z list list -> tres
-
-val foldfilter : wopts -> (z list -> z list) -> bool -> bool -> z list -> tres
-
-val foldfilter_tool : wopts -> (z list -> z list) -> z list -> tres
-
-val count_cps : nat -> z list -> nat option
-
-val utf8_valid : z list -> bool
-
-val all_delims : nat -> z list -> z list -> bool
-
-val width_ok : z -> z list -> bool
-
-val check_wrap : z list -> wopts -> z list list -> z list list -> bool
+val doc_spec : (z list -> z list) -> z list -> z list
